@@ -362,7 +362,7 @@ def gen_objects(rng, n, plain=False):
             L += ["BEGIN:VALARM", "ACTION:" + rng.choice(["DISPLAY", "AUDIO"]), "DESCRIPTION:Reminder", "TRIGGER:-PT15M", "END:VALARM"]
         L += ["END:" + kind]
         dts = [l for l in own if l.startswith("DTSTART:")]
-        if kind == "VEVENT" and any(l.startswith("RRULE:") for l in L) and dts and rng.random() < 0.6:
+        if kind == "VEVENT" and any(l.startswith("RRULE:") for l in L) and dts and not plain and rng.random() < 0.6:
             # one instance of the recurring event overridden: a second VEVENT with other texts.  A comp-filter matches
             # the resource when *any* of its VEVENTs satisfies it
             L += ["BEGIN:VEVENT", "UID:c11g-%d" % i, "DTSTAMP:20240101T000000Z", "RECURRENCE-ID:" + dts[0][8:], "DTSTART:" + dts[0][8:17] + "130000Z",
